@@ -520,6 +520,7 @@ var PureAccessors = map[string]bool{
 	"rueidis.(*RedisMessage).values": true,
 	"rueidis.(*RedisMessage).string": true,
 	"rueidis.(*RedisError).string":   true,
+	"rueidis.(*prettyRedisMessage).values": true,
 }
 
 // ---------------------------------------------------------------------------------------------
